@@ -169,6 +169,10 @@ struct HashMgrSim : Sim {
                 p.cfg["faults"] = faults;
                 p.cfg["size_regime"] = (int) g.below(100) < 2 ? 2 : (int) g.below(3) == 0 ? 1 : 0; // 0 small, 1 medium, 2 large(rare)
                 p.cfg["mgr_place"] = (int) g.below(3);
+                // swarm knob for segment lengths: 0 mixed, 1 every segment the same length (ties on the minimum lane length),
+                // 2 whole blocks only, 3 tiny (< 1 block) only, 4 around the padding boundary only
+                p.cfg["len_mode"] = g.chance(1, 2) ? 0 : (int64_t) (1 + g.below(4));
+                p.cfg["len_fixed"] = (int64_t) g.below(1 << 16);
                 int nops = 10 + (int) g.below(thorough ? 190 : 120);
                 int w_submit = 60 + (int) g.below(30), w_flush = (int) g.below(15), w_drain = (int) g.below(5), w_restart = (int) g.below(6),
                     w_zero = (int) g.below(5), w_reject = faults ? 3 + (int) g.below(15) : 0;
@@ -226,6 +230,8 @@ struct HashMgrSim : Sim {
                 int inflight = 0;
                 uint64_t plan_seed;
                 int size_regime;
+                int len_mode = 0;
+                int64_t len_fixed = 0;
                 bool poisoned_api = false; // an earlier rejection happened (C11 "later valid call" clause is live)
                 std::string tag;           // "sha256/avx2/isal"
                 int last_kind = 0;
@@ -417,6 +423,16 @@ struct HashMgrSim : Sim {
         uint32_t seg_len(St &s, int64_t cls, int64_t sub_)
         {
                 uint64_t sub = (uint64_t) sub_ & 0xffffffffull;
+                {
+                        uint32_t Bm = (uint32_t) s.d->block;
+                        switch (s.len_mode) {
+                        case 1: cls = s.len_fixed; sub = (uint64_t) s.len_fixed >> 4; break;          // all segments alike
+                        case 2: return Bm * (uint32_t) (1 + sub % 12);                                 // whole blocks
+                        case 3: return (uint32_t) (sub % Bm);                                          // less than a block
+                        case 4: return Bm * (uint32_t) (sub % 3) + Bm - (uint32_t) s.d->lenfield - 2 + (uint32_t) ((sub >> 2) % 5); // padding boundary
+                        default: break;
+                        }
+                }
                 uint32_t B = (uint32_t) s.d->block;
                 uint32_t maxlen = s.size_regime == 2 ? (1u << 20) : s.size_regime == 1 ? 8192 : 1024;
                 switch (cls % 12) {
@@ -698,6 +714,8 @@ struct HashMgrSim : Sim {
                 s.r = &r;
                 s.plan_seed = p.seed;
                 s.size_regime = (int) p.get("size_regime");
+                s.len_mode = (int) p.get("len_mode");
+                s.len_fixed = p.get("len_fixed");
                 s.tag = std::string(s.d->name) + "/" + s.f->name + "/" + (s.api == API_FAMILY ? "family" : s.api == API_ISAL ? "isal" : "legacy");
                 const AlgoDesc &d = *s.d;
                 e.ev(hash_str(s.tag.c_str()));
